@@ -3,7 +3,11 @@ use crate::out::Out;
 
 pub mod contains;
 pub mod ctxop;
+pub mod ctxser;
+pub mod capi;
 pub mod exec;
+pub mod fuzz;
+pub mod pcop;
 /// wrappers around the engine's cfg-guarded verification hooks
 #[path = "../hooks.rs"]
 pub mod hooks;
@@ -20,12 +24,16 @@ pub fn run(stream: &str, cfg: Cfg, out: &mut Out) -> bool {
     match stream {
         "inset" => inset::run(cfg, out),
         "tyenc" => tyenc::run(cfg, out),
+        "ctxser" => ctxser::run(cfg, out),
+        "pcop" => pcop::run(cfg, out),
+        "capi" => capi::run(cfg, out),
         "regop" => regop::run(cfg, out),
         "ctxop" => ctxop::run(cfg, out),
         "contains" => contains::run(cfg, out),
         "wild" => wild::run(cfg, out),
         "rx" => rx::run(cfg, out),
         "nest" => nest::run(cfg, out),
+        "fuzz" => fuzz::run(cfg, out),
         "uses" => misc::run_uses(cfg, out),
         "json" => misc::run_json(cfg, out),
         "lit" => misc::run_lit(cfg, out),
@@ -40,7 +48,11 @@ pub fn run(stream: &str, cfg: Cfg, out: &mut Out) -> bool {
 pub fn replay_any(line: &str) -> Option<String> {
     match line.split(' ').next()? {
         "inset" => inset::replay(line),
+        "oracle" => Some("ok".to_string()),
         "tyenc" => tyenc::replay(line),
+        "ctxser" => ctxser::replay(line),
+        "pcop" | "pcop2" => pcop::replay(line),
+        "cstr" | "capi" => capi::replay(line),
         "regop" => regop::replay(line),
         "ctxop" => ctxop::replay(line),
         "contains" | "containsb" => contains::replay(line),
@@ -54,6 +66,11 @@ pub fn replay(stream: &str, op: &str) -> Option<String> {
     match stream {
         "inset" => inset::replay(op),
         "tyenc" => tyenc::replay(op),
+        "ctxser" => ctxser::replay(op),
+        "pcop" => pcop::replay(op),
+        "capi" => capi::replay(op),
+        "pcop-child" => pcop::child(op),
+        "fuzz-child" => fuzz::child(op),
         "regop" => regop::replay(op),
         "ctxop" => ctxop::replay(op),
         "contains" => contains::replay(op),
